@@ -146,7 +146,12 @@ def run(ctx) -> None:
             for x in b.evs:
                 if x.kind != "loop":
                     continue
-                which = "dirs" if x.text.endswith("[1]") else "files" if x.text.endswith("[2]") else None
+                # the listing as it is, or an eager copy of it in the same order (list(dirs), tuple(dirs), dirs[:], dirs.copy())
+                lt = x.text
+                mcopy = re.fullmatch(r"(?:list|tuple)\((.+)\)|(.+)\[:\]|(.+)\.copy\(\)", lt)
+                if mcopy:
+                    lt = next(g for g in mcopy.groups() if g)
+                which = "dirs" if lt.endswith("[1]") else "files" if lt.endswith("[2]") else None
                 if which is None:
                     continue
                 bodies = [bb for bb in x.extra["paths"] if bb.outcome[0] not in ("raise",)]
@@ -166,7 +171,7 @@ def run(ctx) -> None:
                         rec = term.args[0] if isinstance(term, ast.Call) and term.args else None
                         if isinstance(rec, ast.Call) and len(rec.args) >= 5:
                             elem = f"$elem({x.text})"
-                            wroot = x.text[: -len("[1]")] + "[0]"
+                            wroot = lt[: -len("[1]")] + "[0]"
                             path = f"os.path.join({wroot}, {elem})"
                             a0, a3, a4 = ast.unparse(rec.args[0]), ast.unparse(rec.args[3]), ast.unparse(rec.args[4])
                             if a3 != elem or a4 != path:
@@ -176,11 +181,12 @@ def run(ctx) -> None:
                                 good = False
                                 why.append("dirs: the record's descriptor is not the watch just added for that directory")
                             if which == "files":
-                                lookups = (f"self._wd_for_path.get(os.path.dirname({path}))", f"self._wd_for_path[os.path.dirname({path})]")
+                                # the parent of join(walk root, name) is the walk root (os.walk hands out plain names): either spelling
+                                lookups = (f"self._wd_for_path.get(os.path.dirname({path}))", f"self._wd_for_path.get({wroot})", f"self._wd_for_path[os.path.dirname({path})]", f"self._wd_for_path[{wroot}]")
                                 if a0 not in lookups:
                                     good = False
                                     why.append("files: the record's descriptor is not the parent's watch looked up under dirname(path)")
-                                elif a0 == lookups[0] and bb.conds().get(f"{a0} is None") is not False:
+                                elif a0 in lookups[:2] and {**b.conds(), **bb.conds()}.get(f"{a0} is None") is not False:
                                     good = False
                                     why.append("files: a record is built although the parent's watch was not found (descriptor None)")
                         else:
@@ -219,8 +225,12 @@ def run(ctx) -> None:
     ops = list_ops(gf.node, GL)
     stage("buffer: grouped list", set(ops) <= {"append", "extend", "[i]="} and ops.get("append", 0) >= 1, f"operations on {GL}: {ops}", gf.loc, ops)
     rf = P.find_method("InotifyBuffer", "run")
-    fors = [n for n in ast.walk(rf.node) if isinstance(n, ast.For)]
-    stage("buffer: hand-over loop in order", bool(fors) and not any(isinstance(f.iter, ast.Call) and dotted(f.iter.func) in ("reversed", "sorted") for f in fors), "hand-over loop iterates a reordered view", rf.loc)
+    # the hand-over loop (a `for`, or the loop a comprehension over the hand-overs abbreviates) iterates the grouped list as it is
+    from ..pse import Enumerator as _En
+    from ..threads import ThreadCfg as _TC
+
+    hl = find_loops(_En(_TC(P, follow_attrs=False, no_inline={"read_events", "_group_events", "put", "should_keep_running"})).run(rf, selfcls="InotifyBuffer"), lambda e: "_group_events(" in e.text and e.extra.get("kind") == "for")
+    stage("buffer: hand-over loop in order", bool(hl) and not any(re.match(r"(reversed|sorted)\(", h.text) for h in hl), "hand-over loop iterates a reordered view" if hl else "no loop over the grouped events found in InotifyBuffer.run", rf.loc)
     dq = P.cls("DelayedQueue")
     qops = {}
     own = P.public_owners("DelayedQueue")  # an operation in a private helper counts for the public operations that call the helper
